@@ -12,6 +12,11 @@ class Plain:
     pass
 
 
+class BytesSub(bytes):
+    def __bytes__(self):
+        return b'<' + bytes.__getitem__(self, slice(None)) + b'>'
+
+
 def classes_for(role, code):
     """(model record, real object) pairs offered to a slot of the given type code"""
     out = []
@@ -38,6 +43,9 @@ def classes_for(role, code):
         out.append((dict(t='bytes', n=n), b'abcdefgh'[:n]))
     out += [(dict(t='bytes', n=len(b)), b) for b in (b'7', b'12', b'1.5', b'123456', b'1e3456')]
     out += [(dict(t='bytearray', n=len(b)), bytearray(b)) for b in (b'3', b'12', b'123456')]
+    # an instance of a bytes subclass (with a __bytes__ of its own): a string of that length like any other -
+    # what is stored must read back equal to the characters it holds, not to what __bytes__ answers
+    out += [(dict(t='bytes', n=len(b), sub=1), BytesSub(b)) for b in (b'ab', b'abcdef', b'abc')]
     import decimal, fractions
     out += [(dict(t='numobj'), decimal.Decimal('1.5')), (dict(t='numobj'), fractions.Fraction(3, 2))]
     out += [(dict(t='none'), None), (dict(t='plain'), Plain()), (dict(t='tuple'), (1, 2))]
@@ -113,6 +121,8 @@ def main():
                 (['same'] if k is x or (k == x and type(k) is type(x)) else ['other:%r' % (k,)])
         if k is x or (type(k) is type(x) and k == x) or (isinstance(x, float) and x != x and k != k):
             return ['same']
+        if isinstance(x, BytesSub) and type(k) is bytes and bytes.__eq__(k, x):
+            return ['same']         # the characters, as plain bytes
         return ['other:%r' % (k,)]
 
     def lookup(t, x, is_set):
@@ -167,7 +177,8 @@ def main():
                         k = list(t.keys())[0]
                         got = classify_key(x, m, _Only(t), is_set) if False else (
                             ['int', int(k)] if m['t'] == 'bool' and kcode != 'O' else
-                            (['same'] if (k is x or (type(k) is type(x) and (k == x or k != k))) else ['other:%r' % (k,)]))
+                            (['same'] if (k is x or (type(k) is type(x) and (k == x or k != k)) or
+                                          (isinstance(x, BytesSub) and type(k) is bytes and bytes.__eq__(k, x))) else ['other:%r' % (k,)]))
                         recs.append(dict(role='key', code=kcode, x=m, got=got, unchanged=True, lookup=lookup(t, x, is_set),
                                          entry=name, kindname=kindname))
                         continue
@@ -222,7 +233,8 @@ def main():
                         elif m['t'] == 'bool' and vcode != 'O':
                             got = ['int', int(v)] if type(v) is int else ['other:%r' % (v,)]
                         else:
-                            got = ['same'] if (v is x or (type(v) is type(x) and (v == x or v != v))) else ['other:%r' % (v,)]
+                            got = ['same'] if (v is x or (type(v) is type(x) and (v == x or v != v)) or
+                                               (isinstance(x, BytesSub) and type(v) is bytes and bytes.__eq__(v, x))) else ['other:%r' % (v,)]
                         unchanged = True
                     except TypeError:
                         got = ['TypeError']
